@@ -1,6 +1,7 @@
 package props
 
 import (
+	"go/constant"
 	"go/token"
 	"go/types"
 
@@ -25,6 +26,39 @@ type scalarEval struct {
 	boolAtom func(v ssa.Value) (string, bool)
 	// evalLast evaluates a boolean value with the phi values of the last walk.
 	evalLast func(v ssa.Value) (bool, string)
+	// num, when set, gives small-integer values to operands (abstract counts:
+	// 0 / positive); comparisons between two numeric operands are then decided
+	// numerically. Integer phis are resolved along the walked path.
+	num     func(v ssa.Value, env scalarEnv) (int64, bool)
+	intVals map[ssa.Value]int64
+}
+
+// numOf evaluates an integer operand: constants, sums, path-resolved phis and what num names.
+func (s *scalarEval) numOf(v ssa.Value, env scalarEnv, depth int) (int64, bool) {
+	if depth > 8 || s.num == nil {
+		return 0, false
+	}
+	v = stripConv(v)
+	if n, ok := s.intVals[v]; ok {
+		return n, true
+	}
+	if n, ok := s.num(v, env); ok {
+		return n, true
+	}
+	switch x := v.(type) {
+	case *ssa.Const:
+		if x.Value != nil && x.Value.Kind() == constant.Int {
+			n, ok := constant.Int64Val(x.Value)
+			return n, ok
+		}
+	case *ssa.BinOp:
+		if x.Op == token.ADD {
+			a, okA := s.numOf(x.X, env, depth+1)
+			b, okB := s.numOf(x.Y, env, depth+1)
+			return a + b, okA && okB
+		}
+	}
+	return 0, false
 }
 
 // retBool returns the boolean returned at ret (operand k) in the last walk:
@@ -65,6 +99,13 @@ func (s *scalarEval) walk(env scalarEnv) (*ssa.Return, []*ssa.BasicBlock, string
 				return !r, why
 			}
 		case *ssa.BinOp:
+			if cmpTok[x.Op] && s.num != nil {
+				if a, okA := s.numOf(x.X, env, 0); okA {
+					if b, okB := s.numOf(x.Y, env, 0); okB {
+						return ordHolds(sgn(int(a), int(b)), x.Op), ""
+					}
+				}
+			}
 			if cmpTok[x.Op] {
 				a, okA := s.name(x.X)
 				bb, okB := s.name(x.Y)
@@ -90,6 +131,7 @@ func (s *scalarEval) walk(env scalarEnv) (*ssa.Return, []*ssa.BasicBlock, string
 		return false, "unsupported condition " + v.String()
 	}
 	s.evalLast = valOf
+	s.intVals = nil
 	for steps := 0; steps < 10000; steps++ {
 		path = append(path, b)
 		var next *ssa.BasicBlock
@@ -97,6 +139,14 @@ func (s *scalarEval) walk(env scalarEnv) (*ssa.Return, []*ssa.BasicBlock, string
 			switch x := ins.(type) {
 			case *ssa.Phi:
 				for i, p := range b.Preds {
+					if p == prev && s.num != nil {
+						if n, ok := s.numOf(x.Edges[i], env, 0); ok {
+							if s.intVals == nil {
+								s.intVals = map[ssa.Value]int64{}
+							}
+							s.intVals[x] = n
+						}
+					}
 					if p == prev {
 						if types.Identical(x.Type().Underlying(), types.Typ[types.Bool]) {
 							r, why := valOf(x.Edges[i])
